@@ -18,13 +18,25 @@ PROP = "C12"
 INT_DTYPES = ["int8", "int16", "int32", "int64", "uint8", "uint16", "uint32", "uint64"]
 RULE = ("bounded-exhaustive: all id arrays of length<=4 and all edge arrays of length<=3 over alphabet {0,1,2} x directedness; "
         "random id/edge arrays of every integer dtype with values at the dtype limits; a block of 64-bit ids that collide after a float64 detour; radius arrays (1-D/2-D, int/float, masks); "
-        "integer covariance stacks for 1..3 spatial axes, symmetric-biased, singular ones excluded ('clearly inside/outside'); "
+        "integer covariance stacks for 1..3 spatial axes, symmetric-biased; exactly singular ones (diagonal with a 0, zero matrix, rank one v v^T, "
+        "definite/singular blocks, singular indefinite, all negatives; alone, between definite matrices, flagged missing), asymmetric matrices whose eigenvalues are all positive, (n,0,0) stacks without a spatial axis; "
+        "float radii with fractions in (-1,0), -0.0, NaN; "
         "all 2^5 configs x declared/undeclared properties; non-trivial = non-empty input; distinct by structural input")
 EXHAUSTIVE_BLOCKS = ["validate_unique_node_ids: all arrays of length<=4 over {0,1,2}",
                      "validate_data(graph) and the three edge validators: all edge arrays of length<=3 over {0,1,2}^2 x {directed,undirected} x ids in {[0,1,2],[0,1]}"]
 ASSUMPTIONS = [
-    "positive-definiteness is modelled by Sylvester's criterion over exact integers; np.linalg.eigvals / np.allclose are tied only on "
-    "integer matrices with |entries|<=6 and no zero leading minor (clearly inside/outside, as the property says)",
+    "the model decides positive-definiteness by leading principal minors over exact integers (proved equivalent to x^T M x > 0 for all non-zero x "
+    "for sides 1..3: C12_posdef_1/2/3); the oracle decides it by the signs of the characteristic-polynomial coefficients (Faddeev-LeVerrier, exact "
+    "rationals, no minors) and cross-checks with an explicit search for x^T M x <= 0 on the grid [-6,6]^n; np.linalg.eigvals / np.allclose are tied "
+    "only on integer matrices with |entries| <= ~10, side <= 3",
+    "'clearly inside / clearly outside' is read as: positive-definite integer matrices (smallest eigenvalue >= ~1/18^2), matrices with a direction of "
+    "negative x^T M x, asymmetric integer matrices, and exactly singular PSD matrices whose zero eigenvalue LAPACK returns as exactly 0.0 (a zero "
+    "row/column, or the literal list _EXACT_LITERALS of probed rank-one matrices and blocks). EXCLUDED from the tie: non-integer and nearly singular / "
+    "nearly symmetric floats, and every other exactly singular PSD matrix (dense rank-deficient ones, [[2,2],[2,2]]): on those the implementation's "
+    "verdict is the sign of a rounding error (open finding ellipsoid-singular-rounding); they are generated, judged by the oracle, never sent to Coq",
+    "a NaN radius (accepted by the code: not negative) has no counterpart among the model's scaled integers: oracle-only; float radii are multiples "
+    "of 1/4 and reach the model multiplied by 4; masks always have one flag per row (numpy raises IndexError for a boolean mask of another length, "
+    "the model's keep_present truncates instead: never generated)",
     "np.unique / np.isin are modelled by their mathematical meaning (sorted distinct values, membership)",
 ]
 
@@ -81,12 +93,234 @@ def is_sym(M):
     return all(len(r) == n for r in M) and all(M[i][j] == M[j][i] for i in range(n) for j in range(n))
 
 
+# ---- "symmetric and positive-definite" WITHOUT leading principal minors (the model's and the old oracle's method) ----
+# Method (chosen because it shares no step with Sylvester's criterion, which is what GraphVal.pos_def computes):
+#   * elem_sym: the elementary symmetric functions e_1..e_n of the eigenvalues, i.e. the coefficients of
+#     det(tI - M) = t^n - e_1 t^(n-1) + e_2 t^(n-2) - ..., by the Faddeev-LeVerrier recurrence: exact Fractions,
+#     matrix products and traces only -- no determinant, no elimination, no pivot, no minor.  (e_k is the sum of ALL
+#     principal k x k minors, of which the leading one is a single term.)
+#   * a real symmetric matrix has real eigenvalues, so: all eigenvalues > 0 iff e_k > 0 for every k (=>: sums of products
+#     of positives; <=: for s >= 0, (-1)^n p(-s) = s^n + e_1 s^(n-1) + .. + e_n > 0, so no root is <= 0); likewise all
+#     eigenvalues >= 0 iff every e_k >= 0.  This is the criterion the implementation's own eigenvalue test stands for.
+#   * cross-check 1 (definition itself): an explicit search for an integer vector x != 0 with x^T M x <= 0 on a small
+#     grid; a hit for a matrix classified positive-definite is an internal contradiction of the oracle (raises).
+#   * cross-check 2: the leading principal minors (`minors`, kept) must give the same verdict -- an empirical test of
+#     Sylvester's criterion on every generated matrix, not the source of the verdict.
+def elem_sym(M):
+    n = len(M)
+    A = [[Fraction(x) for x in row] for row in M]
+    coeff = [Fraction(0)] * (n + 1)  # det(tI - A) = sum coeff[i] t^i
+    coeff[n] = Fraction(1)
+    Mk = [[Fraction(0)] * n for _ in range(n)]
+    for k in range(1, n + 1):
+        AM = [[sum(A[i][l] * Mk[l][j] for l in range(n)) for j in range(n)] for i in range(n)]
+        Mk = [[AM[i][j] + (coeff[n - k + 1] if i == j else 0) for j in range(n)] for i in range(n)]
+        AMk = [[sum(A[i][l] * Mk[l][j] for l in range(n)) for j in range(n)] for i in range(n)]
+        coeff[n - k] = -sum(AMk[i][i] for i in range(n)) / k
+    return [(-1) ** k * coeff[n - k] for k in range(1, n + 1)]
+
+
+def qform_witness(M, radius=None):
+    """an integer vector x != 0 with x^T M x <= 0 on the grid [-radius, radius]^n, or None"""
+    n = len(M)
+    radius = radius if radius is not None else 6  # 6 finds a witness for every rejected matrix of the generator's ranges
+    for x in itertools.product(range(-radius, radius + 1), repeat=n):
+        if any(x) and sum(x[i] * M[i][j] * x[j] for i in range(n) for j in range(n)) <= 0:
+            return list(x)
+    return None
+
+
+_DEF_CACHE: dict = {}
+ORACLE_STATS = {"matrices_classified": 0, "pd": 0, "singular_psd": 0, "negative_direction": 0,
+                "rejected_with_grid_witness": 0, "rejected_without_grid_witness": 0,
+                "singular_psd_float_exact_cases": 0, "singular_psd_rounding_cases": 0, "singular_psd_rounding_accepted": 0}
+
+
+def definiteness(M):
+    """'pd' | 'singular-psd' | 'neg' (some x with x^T M x < 0) for a SYMMETRIC integer matrix"""
+    key = tuple(tuple(r) for r in M)
+    if key in _DEF_CACHE:
+        return _DEF_CACHE[key]
+    es = elem_sym(M)
+    verdict = "pd" if all(e > 0 for e in es) else ("singular-psd" if all(e >= 0 for e in es) else "neg")
+    w = qform_witness(M)
+    if verdict == "pd" and w is not None:
+        raise AssertionError(f"oracle contradiction: {M} classified positive-definite but x={w} has x^T M x <= 0")
+    if (verdict == "pd") != all(x > 0 for x in minors(M)):
+        raise AssertionError(f"oracle contradiction: characteristic polynomial and leading minors disagree on {M}")
+    ORACLE_STATS["matrices_classified"] += 1
+    ORACLE_STATS[{"pd": "pd", "singular-psd": "singular_psd", "neg": "negative_direction"}[verdict]] += 1
+    if verdict != "pd" and len(M) > 0:
+        ORACLE_STATS["rejected_with_grid_witness" if w is not None else "rejected_without_grid_witness"] += 1
+    _DEF_CACHE[key] = verdict
+    return verdict
+
+
+# Exactly singular positive-SEMI-definite matrices are not positive-definite, so the documented condition rejects them
+# (the repository's own test_pos_def pins this with np.ones((10, 2, 2))).  The implementation tests the floating-point
+# eigenvalues of np.linalg.eigvals (LAPACK geev) against > 0 with no tolerance, so for such a matrix the verdict is the
+# sign of a rounding error unless LAPACK reproduces the zero eigenvalue as exactly 0.0.  Families on which it does
+# (probed member by member on the pinned numpy, design_probes/c12_singular_eigvals.py; demanded at every run):
+#   (a) a zero row/column (the balancing step isolates the index and returns the diagonal entry 0.0 itself): covers
+#       every diagonal matrix with a 0, the zero matrix, a definite block beside a 0 entry;
+#   (b) the literal list below: v v^T for the listed small integer v, and a rank-one 2x2 block beside a positive entry.
+# Every other exactly singular PSD matrix (e.g. [[2,2],[2,2]]: accepted with eigenvalue +4.4e-16, while [[3,3],[3,3]]
+# is rejected with -8.9e-16) is judged under the open finding id=ellipsoid-singular-rounding and is oracle-only.
+_V2 = [v for v in itertools.product((-2, -1, 1, 2), repeat=2)]
+_V3 = [(1, 1, 1), (1, -1, 1), (1, 1, -1), (1, 1, 2), (2, 1, 1), (1, 2, 2), (2, 1, 2), (2, 2, 1), (2, -1, 1), (1, -2, 2), (2, 2, 2)]
+
+
+def outer(v):
+    return [[a * b for b in v] for a in v]
+
+
+def block3(B, p, pos):
+    """3x3: the 2x2 block B on the two indices other than pos, the entry p at (pos, pos)"""
+    rest = [k for k in range(3) if k != pos]
+    M = [[0] * 3 for _ in range(3)]
+    M[pos][pos] = p
+    for a in range(2):
+        for b in range(2):
+            M[rest[a]][rest[b]] = B[a][b]
+    return M
+
+
+_EXACT_LITERALS = {tuple(tuple(r) for r in outer(v)) for v in _V2 + _V3} | {
+    tuple(tuple(r) for r in block3(outer(v), p, pos)) for v in _V2 for p in (1, 2, 5) for pos in range(3)}
+
+
+def float_exact_singular(M):
+    n = len(M)
+    return any(all(M[i][j] == 0 for j in range(n)) for i in range(n)) or tuple(tuple(r) for r in M) in _EXACT_LITERALS
+
+
 def ambiguous(M):
-    """Symmetric matrices on the boundary of the PD cone are outside the claim ('clearly inside or outside')."""
-    return is_sym(M) and any(m == 0 for m in minors(M))
+    """Exactly singular PSD matrices whose zero eigenvalue LAPACK does not reproduce exactly: kept out of the random
+    dispatch stream (the dedicated singular block below generates them, oracle-only, under the open finding)."""
+    return is_sym(M) and len(M) > 0 and definiteness(M) == "singular-psd" and not float_exact_singular(M)
 
 
 # ---------------------------------------------------------------- generation
+RADIUS_SCALE = 4
+
+
+def radius_value(v):
+    """a radius of a case: an int, a float that is a multiple of 1/4, or one of the strings "nan" / "-0.0" (JSON-safe)"""
+    return float(v) if isinstance(v, str) else v
+
+
+def shape_case(axes, sphere=None, ellipsoid=None, cfg=(False, True, True, False, False), n=None):
+    n = n if n is not None else (ellipsoid["shape"][0] if ellipsoid is not None else sphere["shape"][0])
+    return {"kind": "data", "cfg": list(cfg), "directed": True, "dt": "uint8", "ids": list(range(n)),
+            "edges": [[i, i + 1] for i in range(n - 1)], "axes": list(axes), "sphere": sphere, "ellipsoid": ellipsoid, "track": None}
+
+
+def singular_matrices(rng, tier):
+    """(label, matrix): exactly singular symmetric integer matrices, exact in float64, for sides 1, 2, 3"""
+    out = [("zero1", [[0]]), ("zero2", [[0, 0], [0, 0]]), ("zero3", [[0] * 3 for _ in range(3)])]
+    for d in itertools.product((0, 1, 2, 5), repeat=2):
+        if 0 in d and any(d):
+            out.append(("diag2", [[d[0], 0], [0, d[1]]]))
+    for d in itertools.product((0, 1, 2), repeat=3):
+        if 0 in d and any(d):
+            out.append(("diag3", [[d[i] if i == j else 0 for j in range(3)] for i in range(3)]))
+    out += [("rank1-2", outer(v)) for v in _V2] + [("rank1-3", outer(v)) for v in _V3]
+    # rank one with a zero component (zero row/column), side 2 and 3
+    out += [("rank1-zero", outer(v)) for v in ((1, 0), (0, 2), (1, 2, 0), (0, 1, -1), (2, 0, 1), (0, 0, 3))]
+    # one definite block beside a 0 entry, one singular block beside a positive entry, at every position
+    for pos in range(3):
+        for B in ([[2, 1], [1, 2]], [[2, -1], [-1, 1]], [[1, 2], [2, 5]]):
+            out.append(("block-pd+0", block3(B, 0, pos)))
+        for v in ((1, 1), (1, -1), (1, 2), (2, -1), (2, 2)):
+            for p in (1, 2, 5):
+                out.append(("block-sing+pd", block3(outer(v), p, pos)))
+    # singular and indefinite (a zero leading minor AND a negative direction): clearly outside
+    out += [("indef-sing", M) for M in ([[0, 1], [1, 0]], [[0, 2], [2, 3]], [[1, 0, 0], [0, -1, 0], [0, 0, 0]], [[0, 1, 0], [1, 0, 0], [0, 0, 1]],
+                                        [[1, 2, 1], [2, 4, 2], [1, 2, -1]], [[0, 0, 1], [0, 1, 0], [1, 0, 0]], [[1, 1, 0], [1, 1, 1], [0, 1, 1]])]
+    # exactly singular PSD, zero eigenvalue NOT reproduced exactly by LAPACK (open finding; oracle-only)
+    rounding = [[[2, 2], [2, 2]], [[3, 3], [3, 3]], [[5, 5], [5, 5]], [[6, 6], [6, 6]], [[2, -2], [-2, 2]], outer((1, 2, 1)), outer((3, 1, 2)),
+                outer((1, -2, 1)), [[1, -2, 0], [-2, 5, -1], [0, -1, 1]], [[1, -2, -1], [-2, 4, 2], [-1, 2, 3]], [[1, -2, -2], [-2, 5, 4], [-2, 4, 4]],
+                block3([[2, 2], [2, 2]], 1, 0), block3([[2, -2], [-2, 2]], 3, 2)]
+    for _ in range(40 if tier == "quick" else 250):
+        v = [rng.randint(-2, 2) for _ in range(3)]
+        w = [rng.randint(-2, 2) for _ in range(3)]
+        M = [[v[i] * v[j] + w[i] * w[j] for j in range(3)] for i in range(3)]
+        if any(v) or any(w):
+            rounding.append(M)
+    for M in rounding:
+        out.append(("rank-deficient-dense" if ambiguous(M) else "rank-deficient-exact", M))
+    if tier == "quick":  # at most 6 matrices of a family (the literal rounding examples always), all of them in the thorough tier
+        by = {}
+        for lab, M in out:
+            by.setdefault(lab, []).append(M)
+        out = []
+        for lab, Ms in by.items():
+            head = Ms[:10] if lab == "rank-deficient-dense" else []
+            rest = Ms[len(head):]
+            out += [(lab, M) for M in head + (rest if len(rest) <= 6 else rng.sample(rest, 6))]
+    # the negatives: negative semi-definite, a clearly negative eigenvalue
+    out += [(lab + "-neg", [[-x for x in r] for r in M]) for lab, M in list(out) if any(any(r) for r in M)]
+    return out
+
+
+def singular_cases(rng, tier):
+    """finding 23: exactly singular matrices (positive SEMI-definite, so to be rejected: separates `> 0` from `>= 0`), alone,
+    between definite matrices, and flagged missing (then accepted); and an (n, 0, 0) stack with axes but no spatial axis
+    (separates `spatial_dim > 0` from `>= 0`)"""
+    pd = {1: [[3]], 2: [[2, -1], [-1, 2]], 3: [[2, -1, 0], [-1, 2, -1], [0, -1, 2]]}
+    only_ell = (False, False, True, False, False)
+    for lab, M in singular_matrices(rng, tier):
+        side = len(M)
+        axes = ["space"] * side
+        yield {**shape_case(axes, ellipsoid={"shape": [1, side, side], "mats": [M], "missing": None}, cfg=only_ell), "fam": lab}
+        axes2 = axes + ["time"] if rng.random() < 0.5 else axes
+        stack = [pd[side], M, pd[side]]
+        yield {**shape_case(axes2, ellipsoid={"shape": [3, side, side], "mats": stack, "missing": None}, cfg=only_ell), "fam": lab}
+        yield {**shape_case(axes2, ellipsoid={"shape": [3, side, side], "mats": stack, "missing": [False, True, False]}, cfg=only_ell), "fam": lab}
+        if tier == "thorough" or rng.random() < 0.3:
+            yield {**shape_case(axes, ellipsoid={"shape": [3, side, side], "mats": stack, "missing": [True, False, False]}, cfg=only_ell), "fam": lab}
+            yield {**shape_case(axes, ellipsoid={"shape": [1, side, side], "mats": [M], "missing": None},
+                                cfg=(False, False, False, False, False)), "fam": lab}
+    # asymmetric although every eigenvalue is positive (triangular with a positive diagonal) or has a positive real part
+    # (definite + antisymmetric: complex pair): only the symmetry test can reject these
+    asym = [[[4, 0], [-1, 5]], [[2, 1], [0, 2]], [[1, 3], [0, 1]], [[2, 1], [-1, 2]], [[3, -2], [2, 3]], [[5, 1], [2, 5]],
+            [[2, 1, 0], [0, 2, 1], [0, 0, 2]], [[1, 0, 0], [2, 3, 0], [-1, 4, 5]], [[2, -1, 0], [-1, 2, -1], [0, 1, 2]],
+            [[3, 1, 0], [-1, 3, 0], [0, 0, 1]], [[2, 0, 1], [0, 2, 0], [0, 0, 2]], [[4, 1, 1], [1, 4, 1], [1, 2, 4]]]
+    for M in asym:
+        side = len(M)
+        axes = ["space"] * side
+        for T in (M, [list(r) for r in zip(*M)]):
+            yield {**shape_case(axes, ellipsoid={"shape": [1, side, side], "mats": [T], "missing": None}, cfg=only_ell), "fam": "asym-poseig"}
+            yield {**shape_case(axes, ellipsoid={"shape": [3, side, side], "mats": [pd[side], pd[side], T], "missing": None}, cfg=only_ell), "fam": "asym-poseig"}
+            yield {**shape_case(axes, ellipsoid={"shape": [3, side, side], "mats": [pd[side], pd[side], T], "missing": [False, False, True]}, cfg=only_ell),
+                   "fam": "asym-poseig"}
+    # no spatial axis although axes are declared: nothing can be a covariance matrix, whatever its shape
+    for axes in (["time"], ["time", "channel"], []):
+        for n in (0, 1, 2):
+            for side in (0, 1):
+                mats = [[[1] * side for _ in range(side)] for _ in range(n)]
+                for miss in (None, [False] * n):
+                    yield {**shape_case(axes, ellipsoid={"shape": [n, side, side], "mats": mats, "missing": miss}, cfg=only_ell, n=n), "fam": "no-space-axis"}
+
+
+def radii_cases(rng, tier):
+    """finding 7: float radii that are not integers: negative fractions in (-1, 0), -0.0, NaN, beside the integer ones.
+    Scaled by 4 for the model (sphere_rows_scaled); a case holding a NaN is oracle-only (the code accepts NaN: not negative)."""
+    only_sph = (False, True, False, False, False)
+    pool = [0, 1, 2.5, 0.25, "-0.0", -0.5, -0.25, -0.75, -1, "nan", 3]
+    fixed = [[-0.5], [-0.25], [-0.75], ["-0.0"], ["nan"], [0.25], ["nan", 1], ["nan", -0.5], [1, "-0.0", 2.5], [1, -0.25, 2]]
+    for vals in fixed:
+        n = len(vals)
+        yield shape_case([], sphere={"shape": [n], "vals": vals, "float": True, "missing": None}, cfg=only_sph)
+        for k in range(n):  # each entry in turn flagged missing
+            yield shape_case([], sphere={"shape": [n], "vals": vals, "float": True, "missing": [i == k for i in range(n)]}, cfg=only_sph)
+    for _ in range(60 if tier == "quick" else 600):
+        n = rng.randint(1, 4)
+        vals = [rng.choice(pool) if rng.random() < 0.4 else rng.choice([0, 1, 2.5, 0.25, 3]) for _ in range(n)]
+        miss = [rng.random() < 0.4 for _ in range(n)] if rng.random() < 0.5 else None
+        yield shape_case([], sphere={"shape": [n], "vals": vals, "float": True, "missing": miss}, cfg=only_sph if rng.random() < 0.8 else (False, False, False, False, False))
+
+
 def generate(rng: random.Random, tier: str):
     alpha = [0, 1, 2]
     for n in range(5):
@@ -151,6 +385,8 @@ def generate(rng: random.Random, tier: str):
                    "ids": ids, "edges": edges, "axes": [], "sphere": None, "ellipsoid": None, "track": None}
         else:
             yield {"kind": k, "dt": dt, "ids": ids, "edges": edges}
+    yield from singular_cases(rng, tier)
+    yield from radii_cases(rng, tier)
     # shapes + dispatch
     for _ in range(500 if tier == "quick" else 5000):
         n = rng.randint(0, 4)
@@ -210,7 +446,7 @@ def build_geff(c):
     sphere = ell = None
     if c["sphere"] is not None:
         s = c["sphere"]
-        node_props["r"] = {"values": np.array(s["vals"], dtype="float64" if s["float"] else "int64").reshape(s["shape"]),
+        node_props["r"] = {"values": np.array([radius_value(v) for v in s["vals"]], dtype="float64" if s["float"] else "int64").reshape(s["shape"]),
                            "missing": None if s["missing"] is None else np.array(s["missing"], dtype=bool)}
         sphere = "r"
     if c["ellipsoid"] is not None:
@@ -295,7 +531,29 @@ def cmat(m):
     return clist(m, lambda r: clist(r, cz))
 
 
+def shapes_oracle_only(c):
+    """not representable in the exact-integer model: a NaN radius (accepted by the code: not negative), and exactly singular
+    PSD covariance matrices outside the float-exact families (verdict = sign of a rounding error; open finding)"""
+    if c["kind"] != "data":
+        return False
+    if c["sphere"] is not None and any(isinstance(v, str) and v == "nan" for v in c["sphere"]["vals"]):
+        return True
+    e = c["ellipsoid"]
+    return e is not None and len(e["shape"]) == 3 and e["shape"][1] == e["shape"][2] and any(ambiguous(M) for M in e["mats"])
+
+
+def sphere_rows_scaled(s, rows):
+    """float radii are multiples of 1/4 (the generator's only fractions): the model gets 4 * radius, -0.0 as 0"""
+    if not s["float"]:
+        return rows
+    out = [Fraction(radius_value(v)) * RADIUS_SCALE for v in rows]
+    assert all(x.denominator == 1 for x in out)
+    return [int(x) for x in out]
+
+
 def coq_case(c, o):
+    if shapes_oracle_only(c):
+        return None
     k = c["kind"]
     if k == "unique":
         inp = f"IUnique {clist(c['ids'], cz)}"
@@ -318,6 +576,7 @@ def coq_case(c, o):
                 rows = s["vals"]
             else:  # 2-D radii: only the rank matters; give the first column
                 rows = s["vals"][::2]
+            rows = sphere_rows_scaled(s, rows)
             sph = f"(Some ({cnat(len(s['shape']))}, {clist(rows, cz)}, {copt(s['missing'], lambda m: clist(m, cbool))}))"
         ell = "None"
         if c["ellipsoid"] is not None:
@@ -365,7 +624,8 @@ def sphere_valid(s):
     if len(s["shape"]) != 1:
         return False
     miss = s["missing"] or [False] * n
-    return all(v >= 0 for v, m in zip(s["vals"], miss) if not m)
+    # "no negative entry": NaN and -0.0 are not negative (radius_value: see the radii block of the generator)
+    return all(not (radius_value(v) < 0) for v, m in zip(s["vals"], miss) if not m)
 
 
 def ellipsoid_valid(e, axes):
@@ -375,13 +635,36 @@ def ellipsoid_valid(e, axes):
     sh = e["shape"]
     if len(sh) != 3 or sh[1] != sh[2] or sh[1] != nspace:
         return False
+    return ellipsoid_fault(e, axes) is None
+
+
+def ellipsoid_fault(e, axes, o=None):
+    """None (valid) | "ellipsoid" (some non-missing matrix is asymmetric, has a direction with x^T M x < 0, or is exactly
+    singular with a float-exact zero eigenvalue; or the shape is wrong) | "ellipsoid-singular-rounding" (the only
+    offenders are exactly singular PSD matrices outside the float-exact families: open finding)"""
+    nspace = sum(1 for a in axes if a == "space")
+    sh = e["shape"]
+    if nspace == 0 or len(sh) != 3 or sh[1] != sh[2] or sh[1] != nspace:
+        return "ellipsoid"
     miss = e["missing"] or [False] * sh[0]
+    assert len(miss) == sh[0] == len(e["mats"])  # the generator never makes a mask of another length (numpy: IndexError)
+    rounding = False
     for M, m in zip(e["mats"], miss):
         if m:
             continue
-        if not is_sym(M) or not all(x > 0 for x in minors(M)):
-            return False
-    return True
+        if not is_sym(M):
+            return "ellipsoid"
+        d = definiteness(M)
+        if d == "neg" or (d == "singular-psd" and float_exact_singular(M)):
+            if o is not None and d == "singular-psd":  # `o` (the observation) only feeds the statistics of the evidence file
+                ORACLE_STATS["singular_psd_float_exact_cases"] += 1
+            return "ellipsoid"
+        if d == "singular-psd":
+            rounding = True
+    if rounding and o is not None:
+        ORACLE_STATS["singular_psd_rounding_cases"] += 1
+        ORACLE_STATS["singular_psd_rounding_accepted"] += o[0] == "ok"
+    return "ellipsoid-singular-rounding" if rounding else None
 
 
 def oracle(c, o):
@@ -414,7 +697,7 @@ def oracle(c, o):
         if s and c["sphere"] is not None and not sphere_valid(c["sphere"]):
             must_fail.append("sphere")
         if e and c["ellipsoid"] is not None and not ellipsoid_valid(c["ellipsoid"], c["axes"]):
-            must_fail.append("ellipsoid")
+            must_fail.append(ellipsoid_fault(c["ellipsoid"], c["axes"], o))
         tr = c["track"] or {}
         track_may_fail = (l and tr.get("lineage") is not None) or (t and tr.get("tracklet") is not None)
         if o[0] == "ok" and must_fail:
@@ -446,3 +729,9 @@ def describe(c, o):
 
 def search(rng, budget):
     yield from generate(rng, "thorough")
+
+
+def extra_coverage():
+    """ellipsoid oracle: how many distinct matrices were classified (characteristic polynomial), how often the grid search
+    found an explicit x with x^T M x <= 0 for a rejected one, and what the implementation did on the exactly singular ones"""
+    return {"ellipsoid_oracle": dict(ORACLE_STATS)}
